@@ -92,6 +92,12 @@ func init() {
 					n++
 					key := funcKey(rel, fd) + ":" + c.src(called) + "←" + c.src(ix)
 					want := c.src(called)
+					// the same test written on the map element itself (`if m[k].F == nil { return }` before the
+					// copy is taken) justifies the call just as well: the copy is taken from that element
+					want2 := want
+					if rs := c.src(root); len(want) >= len(rs) && want[:len(rs)] == rs {
+						want2 = c.src(ix) + want[len(rs):]
+					}
 					guarded := false
 					for _, f := range factsThroughLocals(info, defs, guardsAt(info, stack)) { // also `miss := v == nil; if miss { return }`
 						b, ok := unparen(f.E).(*ast.BinaryExpr)
@@ -105,7 +111,7 @@ func init() {
 						if !isNilIdent(info, y) || (b.Op == token.NEQ) != f.True {
 							continue
 						}
-						if c.src(x) == want {
+						if sx := c.src(x); sx == want || sx == want2 {
 							guarded = true
 						}
 					}
